@@ -140,7 +140,8 @@ class JointRecurrenceNetwork(JointRecurrencePlot, Network):
 
                 #  Set diagonal of JR to zero to avoid self-loops in the joint
                 #  recurrence network
-                A = self.JR - np.eye(self.JR.shape[0], dtype="int8")
+                A = self.JR.copy()
+                A.flat[::A.shape[0]+1] = 0
 
                 #  Create a Network object interpreting the recurrence matrix
                 #  as the graph adjacency matrix. Joint recurrence networks
